@@ -534,6 +534,12 @@ def run(task):
                     continue
                 smi = E2.write(n, par, rings, list(toks), [""] * n)
                 last = (smi, check_smiles(smi, r))
+                if palname == "basic" and n <= 5:
+                    # the same system as second / first fragment and next to a copy of itself (fragments are kekulized one by one)
+                    check_smiles("c1ccccc1." + smi, r)
+                    check_smiles(smi + ".c1cc[nH]c1", r)
+                    check_smiles(smi + "." + smi, r)
+                    check_smiles("C.[Na+]." + smi + ".O", r)
     elif kind == "subst":
         _, n, pi = arg
         par = list(E2.parent_vectors(n))[pi]
